@@ -12,6 +12,10 @@ static int tvar_valid(const struct tvariant *x) { (void)x; return 1; }
 #define ref_ber_variant(v, x, out, cap) ref_der(v, out, cap)
 #endif
 #define VMAX (TV_MAXENC + 24)
+#if VMAX > 40
+#undef VMAX
+#define VMAX 40     /* exact_copy supports up to 40 octets */
+#endif
 struct inputs { struct tval v; struct tvariant var; uint8_t lf[8]; };
 #include "verif_in.h"
 void harness(void) {
